@@ -327,12 +327,18 @@ func c15Make(kind, content string, flag int, src *c15Src, snk *c15Snk) (data int
 		return (*string)(nil), none
 	case "byt":
 		b := []byte(content)
+		if content == "" {
+			b = nil // the empty byte source most callers hold: a nil slice (Bytes() of an untouched buffer)
+		}
 		return b, tag("b", func() string { return string(b) })
 	case "nbyt":
 		b := c15Bytes(content)
 		return b, tag("b", func() string { return string(b) })
 	case "pbyt":
 		b := []byte(content)
+		if content == "" {
+			b = nil
+		}
 		return &b, tag("b", func() string { return string(b) })
 	case "pnbyt":
 		b := c15Bytes(content)
